@@ -32,7 +32,9 @@ def _is(name):
 
 
 BE_REG = ('backend impl_register_callback(stub)', _is('impl_register_callback'),
-          '__CPROVER_ensures(g_be_reg_key == (unsigned long)$0 && g_be_regs == __CPROVER_old(g_be_regs) + 1 && (unsigned long)$ret == g_be_reg_result)\n'
+          # A_backend: a registration either yields an entry point (non-zero) or the backend aborts; discharged for the bundled
+          # no-op and dylib backends by C12 (clause full_table_is_refused_never_entry_point_0)
+          '__CPROVER_ensures(g_be_reg_key == (unsigned long)$0 && g_be_regs == __CPROVER_old(g_be_regs) + 1 && (unsigned long)$ret == g_be_reg_result && g_be_reg_result != 0)\n'
           '__CPROVER_assigns(g_be_reg_key, g_be_regs)')
 BE_UNREG = ('backend impl_unregister_callback(stub)', _is('impl_unregister_callback'),
             '__CPROVER_ensures(g_be_unreg_key == (unsigned long)$0 && g_be_unregs == __CPROVER_old(g_be_unregs) + 1)\n__CPROVER_assigns(g_be_unreg_key, g_be_unregs)')
@@ -147,11 +149,12 @@ def units(tier):
 
 ASSUMPTIONS = [
     'backend slot functions impl_register_callback / impl_unregister_callback are contract stubs that record their arguments (the bundled backends\' bodies are verified under C12)',
+    'A_backend: impl_register_callback returns a non-zero entry point or aborts (proved for the bundled no-op and dylib backends under C12; the core itself does not test for 0, so a third-party backend that returns 0 when full would get a registered-looking owner)',
     'M-vec model of callback_keys; M-lock (lock_guard dropped); M-atomic (status read sequentially)',
     'environment: at most two other keys in this sandbox\'s callback_keys (positions enumerated); the vector helpers themselves are verified for every length',
 ]
 TRUSTED = ['destructor of sandbox_callback is verified as a function; that C++ runs it exactly once when the owner dies is a language guarantee']
 MANIFEST = {
     'level_text': 'Ownership invariant proof: register_callback is proved to abort unless the sandbox is CREATED and the function is not yet registered, to record the key exactly once (other keys unchanged), to register with the backend once and to return an owner object describing exactly that registration; unregister_callback is proved harmless after destroy_sandbox, to abort for a key that was never registered, and otherwise to remove exactly that key and to unregister it with the backend once; the owner object is proved to end its registration on unregister/destruction exactly once, to transfer ownership on move construction and move assignment leaving the source inert, and to end the registration of an overwritten live owner. Each contract preserves the invariant (keys distinct; registered keys = live owners), so it holds after every history.',
-    'level_note': 'Environment restricted to at most two other registered keys per sandbox (enumerated positions; quantified vector contracts did not discharge on any back end - DESIGN.md). Findings: the backend returning no entry point (0) is returned as a registered owner; move-assignment onto a live owner.',
+    'level_note': 'Environment restricted to at most two other registered keys per sandbox (enumerated positions; quantified vector contracts did not discharge on any back end - DESIGN.md). Fixed findings: bundled backends returned entry point 0 when full; move-assignment onto a live owner.',
 }
